@@ -236,6 +236,7 @@ static void *xrawpost_thread(void *arg)
 	return NULL;
 }
 
+static void fire_ktimer_if_due(void);
 static void one_action(char *act)
 {
 	char *save = NULL;
@@ -418,6 +419,7 @@ static void one_action(char *act)
 	} else if (!strcmp(op, "clk")) {
 		vclock += atoll(a1);
 		logf_("CLK %lld\n", vclock);
+		fire_ktimer_if_due();	/* time passing is what makes a kernel timer expire: it is queued in the kernel now, ahead of later events */
 	} else if (!strcmp(op, "free")) {
 		char kd = a1[0];
 		i = atoi(a1 + 1) % MAXO;
@@ -749,6 +751,7 @@ static int do_epoll(const char *prim, int epfd, struct epoll_event *events, int 
 	}
 	if (wait_done >= wait_limit)
 		finish("WAITLIMIT");
+	fire_ktimer_if_due();	/* already due when the wait starts: it is ahead of whatever arrives during the wait */
 	apply_stimuli();
 	log_gt();
 	fire_ktimer_if_due();
